@@ -173,4 +173,4 @@ def histogram(part, c):
 
 
 describe = base.describe
-PARTS = [Part("stops", "c10", "lifecycle", gen, nontrivial=nontrivial, describe=describe)]
+PARTS = [Part("stops", "c10", "lifecycle", gen, project=base.project, nontrivial=nontrivial, describe=describe)]
